@@ -303,17 +303,22 @@ func Delay[T any](duration time.Duration) func(Observable[T]) Observable[T] {
 			queue := []lo.Tuple2[context.Context, Notification[T]]{}
 
 			consume := func() {
+				// muNext is taken first: a consumer waiting for its turn must not hold muQueue,
+				// because the delivery in progress may end the stream and run the teardown below,
+				// which needs muQueue (deadlock otherwise). Consumers pop the head of the queue
+				// one at a time, so the order is preserved.
+				muNext.Lock()
 				muQueue.Lock()
 
 				if len(queue) == 0 {
 					muQueue.Unlock()
+					muNext.Unlock()
 					return
 				}
 
 				first := queue[0]
 				queue = queue[1:]
 
-				muNext.Lock()
 				muQueue.Unlock()
 
 				_ = processNotificationWithObserverAndContext(
